@@ -39,15 +39,22 @@ def _case(draw, unit):
         wr = pick if pick != wc else pool[(pool.index(wc) + 1 + off) % len(pool)]
     else:
         wr = wc
+    if form == '4tuple' and draw(st.integers(0, 7)) == 0:
+        # the time-reversed wavelet on the other axis, in either order: with it the 4-tuple coincides with what
+        # pywt.Wavelet(...).filter_bank holds
+        if draw(st.booleans()):
+            wr = 'rev:' + wc
+        else:
+            wc, wr = 'rev:' + wc, wc
     born = 'direct'
-    if form == '4tuple' and draw(st.integers(0, 3)) == 0 and dwtu.sibling(wc):
+    if form == '4tuple' and not wc.startswith('rev:') and not wr.startswith('rev:') and draw(st.integers(0, 3)) == 0 and dwtu.sibling(wc):
         # a same-length pair, so that the filters can also arrive through load_state_dict in a module that was
         # constructed from a single name / 2-tuple (one wavelet for both axes) and used once
         wr = dwtu.sibling(wc)
         born = draw(st.sampled_from(['name', '2tuple', 'direct']))
     mode = draw(st.sampled_from(dwtu.MODES5))
     J = draw(st.sampled_from([1, 1, 2, 3]))
-    Lc, Lr = dwtu.flen(wc), dwtu.flen(wr)
+    Lc, Lr = _flen(wc), _flen(wr)
     H = draw(dwtu.size_strategy(Lc, J, cap=20))
     W = draw(dwtu.size_strategy(Lr, J, cap=20))
     if mode == 'periodization' and draw(st.integers(0, 99)) >= 15:
@@ -65,8 +72,21 @@ def strategy(unit):
     return _case(unit)
 
 
+def _flen(n):
+    return dwtu.flen(n[4:] if n.startswith('rev:') else n)
+
+
+def _pw(n):
+    """'rev:<name>' is the time-reversed wavelet (analysis and synthesis banks exchanged): still a perfect-reconstruction
+    wavelet, and together with <name> on the other axis the 4-tuple of filters equals pywt's filter_bank tuple."""
+    if n.startswith('rev:'):
+        w = pywt.Wavelet(n[4:])
+        return pywt.Wavelet('rev_' + n[4:], filter_bank=[w.rec_lo, w.rec_hi, w.dec_lo, w.dec_hi])
+    return pywt.Wavelet(n)
+
+
 def _filters(case, kind):
-    wc, wr = pywt.Wavelet(case['wcol']), pywt.Wavelet(case['wrow'])
+    wc, wr = _pw(case['wcol']), _pw(case['wrow'])
     if kind == 'dec':
         f4 = (wc.dec_lo, wc.dec_hi, wr.dec_lo, wr.dec_hi)
     else:
@@ -85,17 +105,17 @@ def run_case(case):
     r = Result()
     wc, wr, mode, J = case['wcol'], case['wrow'], case['mode'], case['J']
     H, W = case['size']
-    Lc, Lr = dwtu.flen(wc), dwtu.flen(wr)
+    Lc, Lr = _flen(wc), _flen(wr)
     axH, axW = dwtu.level_lengths(H, Lc, mode, J), dwtu.level_lengths(W, Lr, mode, J)
     in_d1a = dwtu.d1_analysis(axH[0], Lc, mode) or dwtu.d1_analysis(axW[0], Lr, mode)
     in_d1s = dwtu.d1_synthesis(axH[1], Lc, mode) or dwtu.d1_synthesis(axW[1], Lr, mode)
     may_raise = dwtu.reflect_may_raise(axH[0], Lc, mode) or dwtu.reflect_may_raise(axW[0], Lr, mode)
-    r.label(case['form'], mode, 'different_wavelets' if wc != wr else None,
+    r.label(case['form'], mode, 'different_wavelets' if wc != wr else None, 'time_reversed_pair' if 'rev:' in wc + wr else None,
             'different_lengths' if Lc != Lr else None, 'odd' if (H % 2 or W % 2) else None,
             'J>=2' if J >= 2 else None, 'nonsquare' if H != W else None,
             'in_D1_predicate' if (in_d1a or in_d1s) else None)
     r.nontrivial = wc != wr
-    refw = (wc, wr)
+    refw = (_pw(wc), _pw(wr))
 
     def mismatch(kind, what, msg):
         if kind == 'a' and in_d1a and core.kf_open('KF-D1-analysis', ID):
